@@ -194,6 +194,70 @@ def body_getblock(text: str, blk: int) -> bool:
     return True
 
 
+def body_http_headers(kind: int, tail: str, outcome: int, head: bool) -> bool:
+    """HTTP(S)/WAP header block for a request whose path carries a symbolic tail: the status line and
+    every header line are server-chosen (fixed names; values are literals, a date tag or the entry's
+    MIME type) -- never request text, never more than one line."""
+    import urllib.parse
+
+    from pygopherd import GopherExceptions
+    from pygopherd.handlers import HandlerMultiplexer as HM
+    from pygopherd.protocols import http
+
+    cfg = hx.DictConfig(True)
+    hx.silence_logging()
+    saved = (urllib.parse.unquote, HM.getHandler, http.time)
+
+    def unquote(x, encoding="utf-8", errors="replace"):
+        return "REQTEXT(" + x + ")"
+
+    class H:
+        def __init__(self, sel):
+            self.e = rl.entry(cfg, "0", "n", sel, mimetype=[None, "text/plain", "image/gif"][outcome - 1], mtime=12345, size=3)
+
+        def getentry(self):
+            return self.e
+
+        def prepare(self):
+            pass
+
+        def isdir(self):
+            return False
+
+        def write(self, w):
+            w.write(b"BODY")
+
+    def getHandler(selector, searchrequest, protocol, config, handlerlist=None, vfs=None):
+        if outcome == 0:
+            raise GopherExceptions.FileNotFound(selector, "no handler found", protocol)
+        return H(selector)
+
+    urllib.parse.unquote = unquote
+    HM.getHandler = getHandler
+    http.time = hx.ns(gmtime=lambda t: t, strftime=lambda fmt, g: "DATETAG")
+    w = hx.ListWriter()
+    try:
+        req = ("HEAD " if head else "GET ") + ("/wap" if kind == 3 else "") + "/x" + tail + " HTTP/1.0"
+        p = rl.proto(kind, cfg, selector="/x", wfile=w)
+        p.request = req
+        p.canhandlerequest()
+        p.handle()
+    finally:
+        urllib.parse.unquote, HM.getHandler, http.time = saved
+    out = w.gettext()
+    hx.reach()
+    i = out.find("\r\n\r\n")
+    hx.require(i > 0, "C13:http-header-block-unterminated", lambda: repr(out[:200]))
+    block = out[:i]
+    hx.require("REQTEXT" not in block, "C13:request-text-in-http-header", lambda: repr(block))
+    lines = block.split("\r\n")
+    hx.require(lines[0] in ("HTTP/1.0 200 OK", "HTTP/1.0 404 Not Found", "HTTP/1.0 200 Not Found"), "C13:http-status-line-not-server-chosen", lambda: repr(lines[0]))
+    for l in lines[1:]:
+        hx.require(l in ("Last-Modified: DATETAG", "Content-Type: text/plain", "Content-Type: image/gif", "Content-Type: text/html", "Content-Type: text/vnd.wap.wml"),
+                   "C13:http-header-not-server-chosen", lambda: repr(l))
+    return True
+
+
 def body_subject(subj: str, maildir: bool) -> bool:
     """Mail subjects become entry names (menu lines, HTML): whitespace runs collapse to one blank, so no
     CR/LF/TAB survives; an empty subject gets a placeholder."""
@@ -259,6 +323,11 @@ def obligations(tier, seed):
     obs.append(Ob(id="C13.1-waptext", body="harness.C13:body_waptext", sig="l1: str, l2: str", pre=["len(l1) <= 2", "len(l2) <= %d" % (0 if tier == "quick" else 2), "all(c in '<>&' + chr(34) + ' a' for c in l1 + l2)"],
                   timeout=300 if tier == "quick" else 1200, desc="WAP text-to-WML conversion of two symbolic lines: no payload-controlled markup",
                   bounds="2 lines, |l| <= 2 over {< > & \" SPACE a}", functions=["protocols.wap.WAPProtocol.handlerwrite"]))
+    for kind in (2, 3):
+        obs.append(Ob(id="C13.2-http-headers[%s]" % dl.PROTO_NAMES[kind], body="harness.C13:body_http_headers", sig="kind: int, tail: str, outcome: int, head: bool",
+                      pre=["kind == %d" % kind, "len(tail) <= 2", "all(c in 'a%0D:' for c in tail)", "0 <= outcome <= 3"], timeout=300,
+                      desc="%s header block for a request path with a symbolic tail (found / not found, HEAD / GET): status line and header lines are from a fixed server-chosen set; no request text" % dl.PROTO_NAMES[kind],
+                      bounds="|tail| <= 2 over {a % 0 D :}; 4 outcomes x HEAD/GET (symbolic)", functions=["protocols.http.HTTPProtocol.handle/filenotfound", "protocols.wap.WAPProtocol.filenotfound/adjustmimetype"]))
     obs.append(Ob(id="C13.5b-html-title", body="harness.C13:body_title", sig="ti: int, sep: int", pre=["0 <= ti < %d" % len(TITLES), "0 <= sep <= 1"], timeout=300,
                   desc="HTML <title> text used as an entry name contains no CR/LF/TAB, for titles with few and with many whitespace runs (which would forge Gopher+ block headers / menu lines)",
                   bounds="%d titles x LF/CRLF files (symbolic index = solver-driven enumeration)" % len(TITLES), functions=["handlers.html.HTMLFileTitleHandler.getentry"]))
